@@ -15,6 +15,8 @@ use futures_core::future::LocalBoxFuture;
 use tokio::io::{AsyncReadExt, AsyncWriteExt};
 
 use crate::util::*;
+use tokio_rustls::rustls;
+use std::sync::Arc;
 
 // ------------------------------------------------------------------------------------------
 // c19host : Host for String / &'static str, ConnectInfo::new
@@ -642,6 +644,79 @@ pub async fn c19tls(line: &str, pki: &Pki) -> String {
                 Ok(r) => r,
                 Err(_) => "HANG".to_string(),
             }
+        })
+        .await;
+    format!("oracle{{{}}}|res={}", oracle, res)
+}
+
+/// One TLS connector SERVICE (rustls 0.23 with 0-RTT enabled in the client configuration, or OpenSSL) used for several requests for
+/// the same name, one after the other, against servers that present the certificates `certs=<id>,<id>,..` (servers that issue
+/// session tickets and allow early data): what an earlier request left behind in the connector or in the TLS library's session
+/// cache must not decide a later one — each result is that of a fresh connector.
+pub async fn c19reuse(line: &str, pki: &Pki) -> String {
+    let be = field(line, "be").unwrap_or("r");
+    let host = String::from_utf8(unhex(field(line, "host").unwrap_or(""))).unwrap();
+    let certs: Vec<usize> = field(line, "certs").unwrap_or("0").split(',').map(|c| c.parse().unwrap()).collect();
+    let plen: usize = field(line, "pl").unwrap_or("100").parse().unwrap();
+    let seed: u64 = field(line, "seed").unwrap_or("1").parse().unwrap();
+    let oracle = name_oracle(&host, be, pki);
+    let rsvc = {
+        use rustls_pki_types::CertificateDer;
+        let mut roots = rustls::RootCertStore::empty();
+        roots.add(CertificateDer::from(pki.ca1_der.clone())).unwrap();
+        let mut cfg = rustls::ClientConfig::builder().with_root_certificates(roots).with_no_client_auth();
+        cfg.enable_early_data = true;
+        actix_tls::connect::rustls_0_23::TlsConnector::service(Arc::new(cfg))
+    };
+    let osvc = actix_tls::connect::openssl::TlsConnector::service(openssl_connector(pki));
+    let local = tokio::task::LocalSet::new();
+    let res = local
+        .run_until(async {
+            let mut out = Vec::new();
+            for (k, id) in certs.iter().enumerate() {
+                let payload = Rng(seed + k as u64).bytes(plen);
+                let (a, b) = tokio::io::duplex(16384);
+                let srv = async {
+                    let mut sc = rustls_server_config(&pki.idents[*id]);
+                    sc.max_early_data_size = 16384;
+                    let acc = tokio_rustls::TlsAcceptor::from(Arc::new(sc));
+                    if let Ok(s) = acc.accept(b).await {
+                        echo_server(s).await;
+                    }
+                };
+                let conn = Connection::new(host.clone(), Mem::new(a));
+                let h2 = host.clone();
+                let cli = async {
+                    macro_rules! step {
+                        ($svc:expr) => {{
+                            let fut = match std::panic::catch_unwind(std::panic::AssertUnwindSafe(|| $svc.call(conn))) {
+                                Ok(f) => f,
+                                Err(_) => return "PANIC".to_string(),
+                            };
+                            match fut.await {
+                                Ok(c) => {
+                                    let same = (c.request() == &h2) as u8;
+                                    let (io, _) = c.into_parts();
+                                    format!("OK req={} echo={}", same, echo_check(io, payload).await as u8)
+                                }
+                                Err(e) => show_io_err(&e),
+                            }
+                        }};
+                    }
+                    if be == "o" {
+                        step!(osvc)
+                    } else {
+                        step!(rsvc)
+                    }
+                };
+                let fut = drive(cli, srv);
+                // (in-memory transport: a request that has not finished after 3 s never will)
+                out.push(match tokio::time::timeout(std::time::Duration::from_secs(3), fut).await {
+                    Ok(r) => r,
+                    Err(_) => "HANG".to_string(),
+                });
+            }
+            out.join("/")
         })
         .await;
     format!("oracle{{{}}}|res={}", oracle, res)
